@@ -84,6 +84,12 @@ def name_pool(draw, origin):
                 while G.wire_len(pre) + G.wire_len(origin) > 255:
                     pre = pre[1:]
                 fam[i] = pre + list(origin)
+        if draw(st.integers(0, 3)) == 0:
+            # a name under the origin that is exactly (or one short of) 255 octets on the wire: it is
+            # held relative and only reaches full length when the origin is appended at render time
+            room = 255 - G.wire_len(origin) - draw(st.sampled_from([0, 0, 1]))
+            if room >= 2:
+                fam.append(draw(G.long_rel_labels(target=room)) + list(origin))
     return fam
 
 
